@@ -100,7 +100,8 @@ def gen_cfg(rng):
         "beh_extra": rng.choice([0, 0, 1, 3]),
         "vis_ms": dur_ms(rng, 1, rng.choice([20, 120, 1200])),
         "producers": [{"rate": rng.choice(rates), "poisson": rng.random() < 0.5,
-                       "batch": rng.choice([1, 1, 2, 3, 8])} for _ in range(n_prod)],
+                       "batch": rng.choice([1, 1, 2] if regime == "overload" else [1, 1, 2, 3, 8])}
+                      for _ in range(n_prod)],
         "bursts": bursts,
         "poll_rate": poll_rate,
         "poll_after_publish": poll_after_publish,
@@ -135,6 +136,7 @@ def gen_cfg(rng):
 
 def build(cfg, seed):
     from happysimulator.components.messaging import DeadLetterQueue, MessageQueue, Topic
+    from happysimulator.components.messaging.message_queue import MessageState
     from happysimulator.core.callback_entity import NullEntity
     from happysimulator.core.entity import Entity
     from happysimulator.core.event import Event
@@ -454,7 +456,8 @@ def build(cfg, seed):
             at(t_ms, "Tick", target=tpub)
 
     def states_of(q, mids):
-        out = {}
+        out = {st.name: 0 for st in (MessageState.PENDING, MessageState.DELIVERED, MessageState.ACKNOWLEDGED,
+                                     MessageState.REJECTED)}
         for mid in mids:
             m = q.get_message(mid)
             k = "gone" if m is None else m.state.name
